@@ -91,6 +91,22 @@ RING_RULES.update({
         'increase bond order (c1,c2) decrease number of radical (c1) '
         'decrease number of radical (c2)}',
 })
+# rules whose pattern fits the same atoms in more than one way while the
+# edit is NOT symmetric under that exchange (need >= 4 heavy atoms to show)
+RING_RULES.update({
+    'beta scission':
+        'rule bs{reactant r1{C. labeled c1 C? labeled c2 single bond to c1 '
+        'C? labeled c3 single bond to c2} break bond (c2,c3) increase bond '
+        'order (c1,c2) decrease number of radical (c1) increase number of '
+        'radical (c3)}',
+    '1,2-H shift':
+        'rule hs{reactant r1{C. labeled c1 C? labeled c2 single bond to c1 '
+        'H labeled h1 single bond to c2} break bond (c2,h1) form bond '
+        '(c1,h1) decrease number of radical (c1) increase number of radical '
+        '(c2)}',
+})
+SEEDS4 = ['[CH2]C[CH]C', '[CH2]CCC', 'C[CH]CC', 'CC(C)[CH2]', '[CH2]C(C)C',
+          'C[CH]C(C)C', '[CH2]CC[CH2]']
 DEFAULT_VALENCE = {1: 1, 6: 4, 7: 3, 8: 2}
 
 
@@ -324,6 +340,15 @@ def cases(ctx):
                     entry = 'text'
                 out.append({'seeds': ss, 'kind': kind, 'rules': rs,
                             'entry': entry})
+    # asymmetric RING rules on radicals of four heavy atoms
+    for ss in SEEDS4:
+        for rs in (['beta scission'], ['1,2-H shift'],
+                   ['beta scission', '1,2-H shift'],
+                   ['beta scission', 'C-H scission'],
+                   ['1,2-H shift', 'C-C scission']):
+            out.append({'seeds': [ss], 'kind': 'ring', 'rules': rs,
+                        'entry': ('objects', 'text')[len(out) % 2],
+                        'asym': True})
     # degenerate sizes: no rule at all (the closure is the seed set), no seed
     for ss in seedsets[:12]:
         out.append({'seeds': ss, 'kind': 'smarts', 'rules': [],
@@ -342,8 +367,10 @@ def run_shard(ctx):
     r = ctx.sub_rng('c17')
     r.shuffle(allc)
     if ctx.tier == 'quick':
-        allc = [c for c in allc if not c['rules'] or not c['seeds']] + \
-            [c for c in allc if c['rules'] and c['seeds']][:2000]
+        allc = [c for c in allc if not c['rules'] or not c['seeds']
+                or c.get('asym')] + \
+            [c for c in allc if c['rules'] and c['seeds'] and
+             not c.get('asym')][:2000]
     for i, c in enumerate(allc):
         if ctx.mine(i):
             check_case(ctx, c)
